@@ -18,6 +18,34 @@ from ..report import AnalysisError
 from .common import problem_model
 
 
+def _must_pushed(body, subject, slots):
+    """Operand slots pushed onto the work stack on EVERY path through the arm body."""
+    from ..must import analyze
+
+    def tr(node, facts):
+        f = set(facts)
+        for n in ast.walk(node) if not isinstance(node, (ast.FunctionDef, ast.Lambda)) else []:
+            if isinstance(n, ast.Call) and isinstance(n.func, ast.Attribute) and n.func.attr in ("append", "extend") and src(n.func.value) == "stack" and n.args:
+                for s in slots:
+                    if src(n.args[0]).startswith(f"{subject}.{s}"):
+                        f.add(s)
+        return frozenset(f)
+
+    return _continue_facts(body, tr)
+
+
+def _continue_facts(body, tr):
+    from ..must import MustAnalysis
+
+    m = MustAnalysis(tr, lambda n: False)
+    o = m.block(list(body), frozenset())
+    res = o.normal
+    for kind, _n, f in o.pending:
+        if kind in ("continue", "return"):
+            res = set(f) if res is None else set(res) & set(f)
+    return set(res) if res is not None else set()
+
+
 def check(prog, rep):
     kinds = prog.expression_kinds()
     # ------------------------------------------------------------------ R16.1
@@ -59,7 +87,7 @@ def check(prog, rep):
                 ok = True
                 why = "delegates to the kind's own get_variables (R16.1)"
             else:
-                pushed = {s for s in slots if f"stack.append({d.subject}.{s})" in body_src}
+                pushed = _must_pushed(a.body, d.subject, slots)
                 ok = pushed == set(slots)
                 why = f"pushes all children {sorted(pushed)}" if ok else f"pushes only {sorted(pushed)} of the children {sorted(slots)}: variables under the other child are dropped"
             rep.ob("R16.2", f"{walker.name}[{k}]", ok, why, loc=f"{walker.module.rel}:{a.lineno}", detail="arm")
@@ -88,13 +116,14 @@ def check(prog, rep):
                 ok = k in ("Constant", "Parameter") and terminal(body) == "continue"
                 rep.ob("R16.3", construct, ok, "contributes no variables; skipped" if ok else f"leaf kind {k} is skipped although it may carry a variable", loc=f"{sc.module.rel}:{a.lineno}", detail="arm")
                 continue
-            pushes = set()
+            pushes_any = set()
             for n in ast.walk(ast.Module(body=body, type_ignores=[])):
                 if isinstance(n, ast.Call) and isinstance(n.func, ast.Attribute) and n.func.attr in ("append", "extend") and src(n.func.value) == "stack" and n.args:
                     for s in slots:
                         if src(n.args[0]).startswith(f"{ds.subject}.{s}"):
-                            pushes.add(s)
-            if pushes:
+                            pushes_any.add(s)
+            pushes = _must_pushed(body, ds.subject, slots) if pushes_any else set()
+            if pushes_any:
                 ok = pushes == set(slots)
                 rep.ob("R16.3", construct, ok, f"pushes all children {sorted(pushes)}" if ok else f"pushes only {sorted(pushes)} of {sorted(slots)}: a second vector or scalar under the other child goes unnoticed and the shortcut returns too few variables", loc=f"{sc.module.rel}:{a.lineno}", detail="arm")
                 continue
